@@ -22,6 +22,7 @@ wf_main = partial(e2.rule_wellfounded, programs=("main",))
 wf_nh = partial(e2.rule_wellfounded, programs=("nonhermitian",))
 wf_all = partial(e2.rule_wellfounded, programs=("main", "nonhermitian"))
 tv_shipped = partial(e9.rule_translation, which=("main", "nonhermitian"))
+diag_solver_real = partial(e7.rule_diagonal_solver, complex_energies=False)  # Hermitian H_0: real energies
 
 PROPS: dict[str, dict] = {}
 
@@ -37,7 +38,7 @@ def prop(pid, **kw):
 
 prop(
     "C01", level="proof", trusted_base=TB_E1, selftest=["algorithms", "block_diagonalization"],
-    rules=[main_e1, wf_main, e1b.rule_projection_pairs, e1b.rule_scope_flags, e7.rule_diagonal_solver,
+    rules=[main_e1, wf_main, e1b.rule_projection_pairs, e1b.rule_scope_flags, diag_solver_real,
            e2.rule_product_by_order, e2.rule_adjoint_fill],
     explanation=(
         "Every `with` block of algorithms.py::main is read from the current source and its defining equation is "
@@ -81,7 +82,7 @@ prop(
 
 prop(
     "C05", level="other", selftest=["algorithms"],
-    rules=[nh_e1, wf_nh, e1b.rule_scope_flags],
+    rules=[nh_e1, wf_nh, e1b.rule_scope_flags, e1b.rule_projection_pairs, e7.rule_diagonal_solver],
     explanation=(
         "E1 certificate of algorithms.py::nonhermitian (atoms H_0, H'_S, H'_R, U', U_inv'; rules U_inv U = U U_inv = 1, "
         "gauge S[U_inv'] = S[U']): inverse relations, gauge, Sylvester equation, elimination, B and H_tilde are "
@@ -240,7 +241,7 @@ prop(
 prop(
     "C20", level="other", selftest=["block_diagonalization"],
     rules=[e5.rule_guards, e5.rule_h0_block_diagonal, e5.rule_guard_dominance, e5.rule_symbolic_hermiticity,
-           e5.rule_total_callbacks, e7.rule_shared_eigenvalue_check, e7.rule_diagonal_solver],
+           e5.rule_total_callbacks, e7.rule_shared_eigenvalue_check, diag_solver_real],
     explanation=(
         "Each rejection the property lists is located as a raise whose path condition has exactly the required truth "
         "table over canonical atoms (robust to De-Morgan / nesting / early-return rewrites) and that precedes the "
